@@ -51,3 +51,22 @@ package planner
 //@   assert before call#1 CheckAccessOfDocOnCollectionWithACP: callarg(GetDocID, 1, 0) == old(block.Delta)
 //@   ensures ok && err == nil ==> isnil(res(GetDocID, 1, 0)) || !res(Option[DocumentACP].HasValue, 1, 0) || (called(CheckAccessOfDocOnCollectionWithACP, 1) && res(CheckAccessOfDocOnCollectionWithACP, 1, 0) && res(CheckAccessOfDocOnCollectionWithACP, 1, 1) == nil)
 //@   tags C10
+//@
+//@ // ===== C08: _min / _max over documents: a document without a value for the field does not take part - the
+//@ // running extreme is never forgotten
+//@ extern (*big.Float).SetInt64(z, x) -> (r)
+//@   ensures r == z
+//@ extern (*big.Float).SetUint64(z, x) -> (r)
+//@   ensures r == z
+//@ extern (*big.Float).SetFloat64(z, x) -> (r)
+//@   ensures r == z
+//@ extern (*big.Float).Cmp(a, b) -> (c)
+//@   pure
+//@ func (*minNode).Next$1 -> (r)
+//@   ensures value != nil ==> r != nil
+//@   ensures r == value || called(Cmp, 1) || value == nil
+//@   tags C08
+//@ func (*maxNode).Next$1 -> (r)
+//@   ensures value != nil ==> r != nil
+//@   ensures r == value || called(Cmp, 1) || value == nil
+//@   tags C08
